@@ -24,7 +24,8 @@ CHECKS = {
         "and the run-time type checks are reached; the repository's own texts (tests, manuals, msgdb) are harvested at run time, token-mutated and "
         "truncated; random and bit-flipped byte strings including 1023/1024-byte lines are fed as well. Each text goes through Parser::parse/"
         "Executable::run, the C API, the interactive statement route, a fragmenting reader, and (sampled) the real bloc binary. A case holds iff it "
-        "ends in completed/ParseError/RuntimeError with no sanitizer report, signal, std::terminate or foreign exception.",
+        "ends in completed/ParseError/RuntimeError with no sanitizer report, signal, std::terminate or foreign exception. The thorough tier adds six "
+        "coverage-guided libFuzzer processes (clang build of the working tree) whose artifacts are re-judged by the same monitor.",
    note="trusted: gcc sanitizer runtimes; out-of-domain (counted): allocation-size-too-big/OOM/bad_alloc/length_error when the case involves a magnitude > 2^20; "
         "runaway programs are interrupted after 20000 statements (inconclusive, capped at 2%)",
    design="4/C01"),
